@@ -28,6 +28,7 @@ type Value struct {
 	Loc *LocV     // interior / typed pointer (executor side). When set, L is empty.
 	Clo *ClosureV // function value known statically
 	Tup []Value   // tuple
+	Det []Term    // detached slice (axioms): element arrays, one per leaf of the element type
 }
 
 type ClosureV struct {
